@@ -54,6 +54,7 @@ def tasks_for(pid, tier, seed):
         kern("hashing", True, what="Hash feeds one u64 that is injective in (key, generation)")
         kern("packing", True)
         kern("conversions", False, what="same with debug assertions off: from_any / TryFrom still check the archetype id (only from_any_unchecked may skip it)")
+        kern("conversions", True, ("wrapping_version",), what="feature wrapping_version changes no conversion: from_raw still rejects exactly a zero generation and round-trips every other pair")
         if T:
             kern("index_extraction", True)
     if pid == "C19":
@@ -65,16 +66,20 @@ def tasks_for(pid, tier, seed):
                 kern("packing", True, fs)
                 kern("index_extraction", False, fs)
                 kern("growth", True, fs)
+    def cfgparam(n):
+        t.append(dict(kind="cfgparam", n=n, name="cfg-param:%d stacked" % n,
+                      what="is_cfg_enabled of a query parameter with %d stacked #[cfg] attributes is the conjunction of their truth values" % n))
     if pid in ("C10", "C04"):
         t.append(dict(kind="unwind", dbg=True, features=(), name="unwind:Storage::clone",
                       what="MIR path fact: on the unwind edge of every user Clone::clone call inside Storage{N}::clone only RefCell guards are dropped (no partially initialised storage); confirmed natively by a Clone that panics at its k-th call"))
     if pid == "C15":
-        def ids(k, c, arch_cfg, comp_cfg, label):
-            t.append(dict(kind="ids", k=k, c=c, arch_cfg=arch_cfg, comp_cfg=comp_cfg, name="ids:%s" % label,
+        def ids(k, c, arch_cfg, comp_cfg, label, stack=False):
+            t.append(dict(kind="ids", k=k, c=c, arch_cfg=arch_cfg, comp_cfg=comp_cfg, stack=stack, name="ids:%s" % label,
                           what="DataWorld::new over %d archetypes x %d components, every explicit id a symbolic Option<u8>%s" % (k, c, ", cfg flags symbolic" if arch_cfg or comp_cfg else "")))
         ids(2, 2, True, False, "2x2+archcfg")
         ids(1, 4, False, False, "1x4 (one scope, 4 items)")
         ids(2, 2, False, True, "2x2+compcfg")
+        ids(2, 1, True, True, "2x1+stacked cfgs (two attributes per item)", stack=True)
         if T:
             ids(3, 1, False, True, "3x1+compcfg")
             ids(3, 2, True, False, "3x2+archcfg")
@@ -88,6 +93,8 @@ def tasks_for(pid, tier, seed):
                           what="declaration with cfg'd items under every truth assignment == erased declaration (through the real DataWorld::new twice)"))
         meta(2, 1, [(0,), ()], [[()], [(1,)]], 2, "2x1 arch0:p0 comp(1,0):p1")
         meta(2, 2, [(), (0,)], [[(0,), ()], [(), ()]], 1, "2x2 shared predicate on arch1 and comp(0,0)")
+        meta(2, 1, [(0, 1), ()], [[()], [(1, 0)]], 2, "2x1 stacked predicates on arch0 and comp(1,0)")
+        cfgparam(3)
         for sh in ("CC", "CE", "OC", "DC", "ED"):
             t.append(dict(kind="cfgbind", A=2, C=3, shape=sh, name="cfg-query:%s 2x3" % sh,
                           what="query with cfg'd parameters under every truth assignment keeps the archetypes of the erased query"))
@@ -119,6 +126,7 @@ def tasks_for(pid, tier, seed):
             c = 4 if (T and len(sh) == 1) else C
             t.append(dict(kind="bind", A=a, C=c, shape=sh, name="bind:%s %dx%d" % (sh, a, c),
                           what="bind_query_params for parameter skeleton %s over %d archetypes x %d pooled components; names, membership matrix and cfg flags symbolic" % (sh, a, c)))
+        cfgparam(2)
         t.append(dict(kind="bind", A=2, C=3, shape="O", oneof_cfg=True, name="bind:O+cfg 2x3", what="a cfg attribute on a OneOf parameter is rejected"))
     return [x for x in t if x]
 
@@ -209,6 +217,11 @@ def run_task(task, mir_path, validate_n):
             pa = [((i,) if task["arch_cfg"] else ()) for i in range(k)]
             pc_ = [[((k * task["arch_cfg"] + i * c + j,) if task["comp_cfg"] else ()) for j in range(c)] for i in range(k)]
             n_pred = k * task["arch_cfg"] + k * c * task["comp_cfg"]
+            if task.get("stack"):
+                # every archetype carries TWO stacked cfg attributes, the first component of each archetype two as well
+                pa = [(2 * i, 2 * i + 1) for i in range(k)]
+                pc_ = [[((2 * k + 2 * i, 2 * k + 2 * i + 1) if j == 0 else ()) for j in range(c)] for i in range(k)]
+                n_pred = 4 * k
             d = macros_ob.Decl(k, c, pa, pc_, n_pred)
             obs, results, stats, sec = macros_ob.ids_obligations(M, d, task["name"])
             res.update(paths=len(results), functions=_short(stats["interpreted"]), modelled_callees=sorted(stats["modelled"]))
@@ -233,6 +246,11 @@ def run_task(task, mir_path, validate_n):
             obs, npaths, stats, sec = macros_ob.bind_cfg_metamorphic(M, q, task["name"])
             res.update(paths=npaths, functions=_short(stats["interpreted"]), modelled_callees=sorted(stats["modelled"]))
             res["bounds"] = "%d archetypes x pool of %d components, skeleton %s, every enabled/disabled assignment" % (task["A"], task["C"], task["shape"])
+            pruned = stats["pruned"]
+        elif task["kind"] == "cfgparam":
+            obs, results, stats, sec = macros_ob.param_cfg_obligations(M, task["n"], task["name"])
+            res.update(paths=len(results), functions=_short(stats["interpreted"]), modelled_callees=sorted(stats["modelled"]))
+            res["bounds"] = "one query parameter with %d stacked #[cfg] attributes, every truth assignment of the predicates" % task["n"]
             pruned = stats["pruned"]
         else:
             raise ValueError(task["kind"])
@@ -510,11 +528,15 @@ def run(pid, tier, spec):
                                 what="witnesses of explored MIR paths compiled and run as real programs", queries=len(cases), paths=len(cases), functions=[], task=dict(kind="witness"),
                                 replay_path=path, native={"disagreements": dis}, n_violated=len(dis), samples=[], wall_s=time.time() - t1, bounds="", assumes=[]))
     # C16: twin corpus — real decorated programs vs their erased twins through the real macros and rustc
-    if pid == "C16":
+    if pid in ("C16", "C05", "C15"):
         from .mirsym import progs
         tdir = os.path.join(os.path.dirname(os.path.abspath(__file__)), "mirsym", "twins")
         for fn in sorted(os.listdir(tdir)):
             if not fn.endswith(".rs"):
+                continue
+            if (pid == "C05" and not fn.startswith("query_")) or (pid == "C15" and not fn.startswith("decl_")):
+                continue
+            if tier != "thorough" and pid != "C16" and fn not in ("query_c.rs", "decl_b.rs"):
                 continue
             t1 = time.time()
             status, detail = progs.twin_pair(fn[:-3], os.path.join(tdir, fn))
@@ -525,10 +547,10 @@ def run(pid, tier, spec):
                      task=dict(kind="witness"), assumes=[], wall_s=time.time() - t1, solver_s=0.0)
             if r["verdict"] == "violation":
                 os.makedirs(common.REPLAY_DIR, exist_ok=True)
-                path = os.path.join(common.REPLAY_DIR, "C16_twin_%s.json" % common.sha(fn + detail))
+                path = os.path.join(common.REPLAY_DIR, "%s_twin_%s.json" % (pid, common.sha(fn + detail)))
                 with open(path, "w") as f:
-                    json.dump({"kind": "e2", "property": "C16", "task": {"kind": "twin", "file": os.path.join(tdir, fn)}, "obligation": detail,
-                               "how_to_replay": "/verif/check C16 --tier quick (rebuilds the twin programs)"}, f, indent=1)
+                    json.dump({"kind": "e2", "property": pid, "task": {"kind": "twin", "file": os.path.join(tdir, fn)}, "obligation": detail,
+                               "how_to_replay": "/verif/check %s --tier quick (rebuilds the twin programs)" % pid}, f, indent=1)
                 r["replay_path"] = path
             common.log("%-12s %-48s %5.0fs %s" % (r["verdict"], r["name"], r["wall_s"], r["reason"][:150]))
             results.append(r)
